@@ -36,6 +36,16 @@ pub struct Plan {
     pub attacker_authenticated: bool,
     pub depth: usize,
     pub moves: Vec<Move>,
+    /// after the last move the node is stopped and started again from its simulated disk (which also holds
+    /// whatever well-formed hostile blocks it stored as side blocks): start-up must not crash on them and
+    /// must come back to the same tip
+    #[serde(default)]
+    pub final_restart: bool,
+    /// the node under test starts with an empty chain (a node that has just been set up and syncs from its
+    /// peers): whatever block reaches it first is the first block of an empty block ring. Such a node takes
+    /// what it is given, so only the crash / stall clauses are judged
+    #[serde(default)]
+    pub fresh_victim: bool,
 }
 
 pub const HOSTILE: &[&str] = &[
@@ -57,6 +67,7 @@ pub const HOSTILE: &[&str] = &[
     "hostile-block-no-tx",
     "hostile-block-huge-replacements",
     "hostile-block-same-input-twice",
+    "hostile-block-id-zero-parent",
     "issuance-tx-no-from",
     "tx-no-outputs",
     "typed-tx-odd-shape",
@@ -78,7 +89,7 @@ fn gen(seed: u64, tier: Tier) -> Plan {
             Move { k, a: rng.below(16) }
         })
         .collect();
-    Plan { seed, attacker_authenticated: rng.chance(2, 3), depth: rng.range(2, 6) as usize, moves }
+    Plan { seed, attacker_authenticated: rng.chance(2, 3), depth: rng.range(2, 6) as usize, moves, final_restart: rng.chance(1, 3), fresh_victim: rng.chance(1, 8) }
 }
 
 fn state_digest(sim: &Sim, n: usize, honest_idx: u64, honest_key: &[u8; 33]) -> (u64, String) {
@@ -119,7 +130,7 @@ impl Scenario for C11 {
     fn meta(&self) -> Meta {
         Meta {
             level: "exploration",
-            rule: "run = node under test preloaded with 2-6 blocks, producing blocks by timer, one honest scripted peer (authenticated, announces and serves the honest continuation, sends valid transactions) and an attacker connection (authenticated in 2/3 of the runs) plus a second unauthenticated one; 3..25/80 moves, 2/3 hostile from a 22-entry catalogue (Block-tagged message, ghost-chain request / unsolicited ghost chain, 150 key-list updates, second handshake with another key, unsolicited response, challenge, blockchain request, services, api messages, announcements answered with garbage, announced blocks that are well-formed but hostile: in-block double spend, id 0, timestamp far in the future, golden-ticket transaction with malformed payload, no transactions; issuance-typed transaction without inputs, transaction without outputs, golden-ticket transaction with malformed payload, connect/disconnect storm, ping, header-hash storm) and 1/3 benign (honest block, honest transaction, timer round, clock jump forward/back). After each move the whole system runs to quiescence (cap 20000 steps). Oracle: no handler panics; quiescence is reached; after a hostile move the digest of {tip, stored blocks, spendable set, pool, the honest peer's entry, its key mapping} is unchanged. distinct_nontrivial = distinct attacker sequences that delivered >= 3 hostile items to a node with >= 1 honest peer.",
+            rule: "run = node under test preloaded with 2-6 blocks (one run in eight: with an empty chain, as a node that was just set up - it takes whatever block reaches it first, so only the crash and stall clauses are judged there), producing blocks by timer, one honest scripted peer (authenticated, announces and serves the honest continuation, sends valid transactions) and an attacker connection (authenticated in 2/3 of the runs) plus a second unauthenticated one; 3..25/80 moves, 2/3 hostile from a 22-entry catalogue (Block-tagged message, ghost-chain request / unsolicited ghost chain, 150 key-list updates, second handshake with another key, unsolicited response, challenge, blockchain request, services, api messages, announcements answered with garbage, announced blocks that are well-formed but hostile: in-block double spend, id 0, timestamp far in the future, golden-ticket transaction with malformed payload, no transactions; issuance-typed transaction without inputs, transaction without outputs, golden-ticket transaction with malformed payload, connect/disconnect storm, ping, header-hash storm) and 1/3 benign (honest block, honest transaction, timer round, clock jump forward/back). After each move the whole system runs to quiescence (cap 20000 steps). In a third of the runs the node is finally stopped and started again from its own simulated disk, which by then also holds the well-formed hostile blocks it stored as side blocks: start-up must not panic and must come back to the same tip and spendable set. Oracle: no handler panics; quiescence is reached; after a hostile move the digest of {tip, stored blocks, spendable set, pool, the honest peer's entry, its key mapping} is unchanged. distinct_nontrivial = distinct attacker sequences that delivered >= 3 hostile items to a node with >= 1 honest peer.",
             real: &["RoutingThread", "VerificationThread", "ConsensusThread (timer-driven bundling)", "MiningThread", "Network/Peer/PeerCollection", "Blockchain/Mempool", "rate limiters"],
             stubs: &["SimNet scripted honest peer and attacker", "fetch bodies chosen by the scenario", "SimClock with jumps"],
             assumptions: &["orphan deliveries are not generated here (known finding of C03/C05)", "event-granularity scheduling"],
@@ -159,12 +170,15 @@ impl Scenario for C11 {
         let start = w.recs[honest_tip].ts + 5_000;
         let mut sim = Sim::new(mix(plan.seed, 111), start);
         let mut opts = NodeOpts::default();
-        opts.produce_blocks_by_timer = true;
+        opts.produce_blocks_by_timer = !plan.fresh_victim;
         opts.mining_enabled = true;
         opts.mining_iterations = 4;
         let n = sim.add_node(&w.keys[2].clone(), &w.cfg.clone(), &opts);
-        let pre: Vec<Vec<u8>> = chain.iter().map(|i| w.recs[*i].bytes.clone()).collect();
-        if !sim.preload(n, &pre) {
+        let pre: Vec<Vec<u8>> = if plan.fresh_victim { vec![] } else { chain.iter().map(|i| w.recs[*i].bytes.clone()).collect() };
+        if plan.fresh_victim {
+            r.fault("node_with_empty_chain", 1);
+        }
+        if !pre.is_empty() && !sim.preload(n, &pre) {
             r.discarded = true;
             return r;
         }
@@ -214,6 +228,13 @@ impl Scenario for C11 {
         let mut hostile_bodies: std::collections::BTreeMap<[u8; 32], Vec<u8>> = Default::default();
         let mut trace = Digest::new();
         let mut hostile_delivered = 0u64;
+        // a well-formed block whose parent the node does not have was handed to it (only the id-zero-parent
+        // item does that): from then on the node is inside the recorded orphan-branch finding of C03/C05/C15
+        // (Blockchain::add_block clears the longest-chain marks above the parentless block's id), and its
+        // known consequences - the node's next own block starts a new chain and the supply audit aborts,
+        // the tip or ledger differ after a restart - are reported under that finding, not as new ones
+        let mut parentless_delivered = false;
+        const ORPHAN_SIG: &str = "C11|after-parentless-block|chain-marks-cleared";
         // settle everything; fetches are answered by the party that announced them
         let mut settle = |sim: &mut Sim, w: &World, hostile_bodies: &std::collections::BTreeMap<[u8; 32], Vec<u8>>| -> bool {
             let mut guard = 0;
@@ -233,7 +254,7 @@ impl Scenario for C11 {
                     Some(b.clone())
                 } else if let Some(i) = w.by_hash.get(&f.hash) {
                     // never hand over a child before its parent (orphan class)
-                    let known = block_on(sim.nodes[0].blockchain_lock.read()).blocks.contains_key(&w.recs[*i].parent);
+                    let known = w.recs[*i].parent == [0; 32] || block_on(sim.nodes[0].blockchain_lock.read()).blocks.contains_key(&w.recs[*i].parent);
                     if known {
                         Some(w.recs[*i].bytes.clone())
                     } else {
@@ -250,7 +271,8 @@ impl Scenario for C11 {
             let hostile = HOSTILE.contains(&mv.k.as_str());
             let (before, before_desc) = state_digest(&sim, n, hidx, &hk.pk);
             let tip = sim.nodes[n].tip();
-            let tip_idx = w.by_hash.get(&tip.1).cloned();
+            // (on a node with an empty chain the hostile blocks are cut from a child of the world's genesis block)
+            let tip_idx = w.by_hash.get(&tip.1).cloned().or(if plan.fresh_victim { Some(0) } else { None });
             let aconn = if mv.a % 3 == 2 { ac2 } else { ac };
             let mut send = |sim: &mut Sim, m: Message| sim.ext_send(aconn, m.serialize());
             match mv.k.as_str() {
@@ -379,6 +401,7 @@ impl Scenario for C11 {
                 k if k.starts_with("hostile-block-") => {
                     if let Some(ti) = tip_idx {
                         let kind = &k["hostile-block-".len()..];
+                        let mut hostile_extra: Vec<([u8; 32], Vec<u8>)> = vec![];
                         let made = crate::util::guarded(|| -> Option<Block> {
                             let mut r2 = Rng::new(mix(plan.seed, 900 + mi as u64));
                             let ci = w.honest_child(ti, &mut r2, 2, (w.recs[ti].id + 1) % 2 == 0, 2300, "hostile-base").ok()?;
@@ -430,6 +453,17 @@ impl Scenario for C11 {
                                     b.id = 0;
                                     reseal(&mut b, &creator, false);
                                 }
+                                "id-zero-parent" => {
+                                    // a block with id 1 whose parent the node does not know: the node asks the
+                                    // sender for that parent under id 0 and is served a well-formed block with id 0
+                                    let mut z = b.clone();
+                                    z.id = 0;
+                                    reseal(&mut z, &creator, false);
+                                    hostile_extra.push((z.hash, z.serialize_for_net(BlockType::Full)));
+                                    b.id = 1;
+                                    b.previous_block_hash = z.hash;
+                                    reseal(&mut b, &creator, false);
+                                }
                                 "future" => {
                                     b.timestamp += 10_000_000_000;
                                     reseal(&mut b, &creator, false);
@@ -452,8 +486,15 @@ impl Scenario for C11 {
                         if let Ok(Some(b)) = made {
                             let bytes = b.serialize_for_net(BlockType::Full);
                             hostile_bodies.insert(b.hash, bytes);
+                            for (h, body) in hostile_extra.drain(..) {
+                                hostile_bodies.insert(h, body);
+                                parentless_delivered = true;
+                                r.fault("parentless_block_delivered", 1);
+                            }
                             // only an authenticated attacker has a fetch url; otherwise the announcement is dropped
-                            sim.ext_send(ac, Message::BlockHeaderHash(b.hash, b.id.max(1)).serialize());
+                            // (an id-0 block is announced under its own id in half of the cases, under id 1 otherwise)
+                            let announced_id = if mv.a % 2 == 0 { b.id } else { b.id.max(1) };
+                            sim.ext_send(ac, Message::BlockHeaderHash(b.hash, announced_id).serialize());
                         }
                     }
                 }
@@ -602,6 +643,10 @@ impl Scenario for C11 {
                 }
             }
             if let Some((nn, what, p)) = sim.panics.first() {
+                if parentless_delivered && p.site().contains("cannot_continue_with_invalid_total_supply") {
+                    r.violate(ORPHAN_SIG, format!("move {} ({}): after a parentless block was delivered node{} {} aborted in its supply audit ({}:{})", mi, mv.k, nn, what, p.file, p.line));
+                    break;
+                }
                 r.violate(
                     format!("C11|panic|{}|{}|{}", mv.k, what, p.site()),
                     format!("move {} ({}): node{} {} panicked: {} ({}:{})", mi, mv.k, nn, what, p.msg.chars().take(140).collect::<String>(), p.file, p.line),
@@ -615,14 +660,59 @@ impl Scenario for C11 {
             // (a block with a far-future timestamp is re-sealed with the honest creator's key by the harness;
             // the protocol has no future-timestamp rule, and when the parent's burn fee has decayed to zero the
             // block is simply valid - its adoption is not a state change caused by *rejected* input)
-            if hostile && mv.k != "hostile-block-future" {
+            // (nor is a well-formed block that the node merely stores next to its chain: the id-0 parent)
+            if hostile && mv.k != "hostile-block-future" && mv.k != "hostile-block-id-zero-parent" && !plan.fresh_victim {
                 let (after, after_desc) = state_digest(&sim, n, hidx, &hk.pk);
+                if after != before && parentless_delivered {
+                    r.violate(ORPHAN_SIG, format!("move {} ({}): after a parentless block was delivered the honest-visible state changes on hostile input: before [{}] after [{}]", mi, mv.k, before_desc, after_desc));
+                    break;
+                }
                 if after != before {
                     r.violate(
                         format!("C11|state-changed-by-hostile-input|{}", mv.k),
                         format!("move {} ({}): honest-visible state changed: before [{}] after [{}]", mi, mv.k, before_desc, after_desc),
                     );
                     break;
+                }
+            }
+        }
+        // stop and start again from the node's own disk
+        if plan.final_restart && r.violations.is_empty() {
+            let tip_before = sim.nodes[n].tip();
+            let utxo_before = {
+                let bc = block_on(sim.nodes[n].blockchain_lock.read());
+                let mut v: Vec<[u8; 59]> = bc.utxoset.iter().filter(|(_, s)| **s).map(|(k, _)| *k).collect();
+                v.sort();
+                v
+            };
+            let mut ropts = NodeOpts::default();
+            ropts.mining_enabled = false;
+            sim.restart_node(n, &w.cfg.clone(), &ropts, None);
+            sim.init_node(n, false);
+            r.fault("restart_after_hostile_traffic", 1);
+            if let Some((nn, what, p)) = sim.panics.first().filter(|x| parentless_delivered && x.2.site().contains("cannot_continue_with_invalid_total_supply")) {
+                r.violate(ORPHAN_SIG, format!("restart after a parentless block was delivered: node{} {} aborted in its supply audit ({}:{})", nn, what, p.file, p.line));
+            } else if let Some((nn, what, p)) = sim.panics.first() {
+                r.violate(
+                    format!("C11|panic|restart|{}|{}", what, p.site()),
+                    format!("restart after the hostile traffic: node{} {} panicked: {} ({}:{})", nn, what, p.msg.chars().take(140).collect::<String>(), p.file, p.line),
+                );
+            } else {
+                let tip_after = sim.nodes[n].tip();
+                let utxo_after = {
+                    let bc = block_on(sim.nodes[n].blockchain_lock.read());
+                    let mut v: Vec<[u8; 59]> = bc.utxoset.iter().filter(|(_, s)| **s).map(|(k, _)| *k).collect();
+                    v.sort();
+                    v
+                };
+                if plan.fresh_victim {
+                    r.probe("fresh_node_restarted");
+                } else if parentless_delivered && (tip_after != tip_before || utxo_after != utxo_before) {
+                    r.violate(ORPHAN_SIG, format!("restart after a parentless block was delivered: tip {} -> {}", tip_before.0, tip_after.0));
+                } else if tip_after != tip_before {
+                    r.violate("C11|restart|tip-differs", format!("after a restart the node is at tip {} ({}), before it was at {} ({})", tip_after.0, crate::util::hex8(&tip_after.1), tip_before.0, crate::util::hex8(&tip_before.1)));
+                } else if utxo_after != utxo_before {
+                    r.violate("C11|restart|ledger-differs", format!("after a restart the node is at the same tip {} but its spendable set differs", tip_after.0));
                 }
             }
         }
